@@ -422,6 +422,40 @@ def family_conflict_case(acc, kind, cfg_setting, cfg_val, kw_setting, kw_val, te
         acc.guard('family_conflict_resolved')
 
 
+def colon_family_case(acc, cfg_tok, kw, text):
+    """sec_colon_required and sec_colon_cautious combine ('if sec_colon_required is True, sec_colon_cautious has no effect'):
+    the combination of one given in config and the other as a keyword must behave like both given in the config string."""
+    P = _p
+    key = f"colonfamily|cfg:{cfg_tok}|kw:{sorted(kw.items())}|{text}"
+    case = {'k': 'colonfamily', 'cfg': cfg_tok, 'kw': kw, 'text': text}
+    eff = {'sec_colon_required': False, 'sec_colon_cautious': False}
+    for tok in cfg_tok.split(','):
+        if tok:
+            eff[tok.split('.')[0]] = not tok.endswith('.False')
+    eff.update(kw)
+    both = ','.join(cfg_token(k, v) for k, v in eff.items())
+    try:
+        want = snap(P.PLSSDesc(text, config=both, parse_qq=True).tracts)
+        d = P.PLSSDesc(text, config=cfg_tok or None, wait_to_parse=True, parse_qq=True)
+        got = snap(d.parse(**kw))
+        got_nc = snap(P.PLSSDesc(text, config=cfg_tok or None, parse_qq=True).parse(commit=False, **kw))
+    except Exception as ex:  # noqa
+        acc.case(key, 'EXC')
+        acc.violation('conflict_exception', f"C13:conflict_exception:colonfamily", case, got=f"{type(ex).__name__}: {ex}")
+        return
+    acc.case(key, got)
+    acc.states += 1
+    acc.transitions += 1
+    if got != want or got_nc != want:
+        acc.violation('keyword_does_not_win', f"C13:keyword_does_not_win:colonfamily:{cfg_tok}:{sorted(kw.items())}", case,
+                      got=got if got != want else got_nc, exp=want, note=f"expected the behaviour of config {both!r}")
+    else:
+        acc.guard('colon_family_ok')
+
+
+COLON_TEXTS = ['T154N-R97W Sec 14: NE/4 Sec 15 NW/4', 'T154N-R97W Sec 14 NE/4', 'Sec 14 NE/4, Sec 15: ALL, T154N-R97W']
+
+
 FAMILY_TEXTS = {'plss': ['T154N-R97W Sec 14: N/2NE/4', 'T154N-R97W Sec 14: N/2NE/4NE/4, Sec 15: ALL'],
                 'tract': ['N/2NE/4', 'N/2NE/4NE/4, ALL']}
 
@@ -470,6 +504,13 @@ def run_unit(unit, tier):
                         family_conflict_case(acc, kind, 'qq_depth', n, 'qq_depth_max', m, text)
                         family_conflict_case(acc, kind, 'qq_depth_min', m, 'qq_depth', n, text)
                         family_conflict_case(acc, kind, 'qq_depth_max', m, 'qq_depth', n, text)
+        for text in COLON_TEXTS:
+            for cfg_tok in ('', 'sec_colon_required', 'sec_colon_cautious', 'sec_colon_required,sec_colon_cautious',
+                            'sec_colon_required.False,sec_colon_cautious'):
+                for kw in ({'sec_colon_required': True}, {'sec_colon_required': False}, {'sec_colon_cautious': True},
+                           {'sec_colon_cautious': False}, {'sec_colon_required': True, 'sec_colon_cautious': True},
+                           {'sec_colon_required': False, 'sec_colon_cautious': True}):
+                    colon_family_case(acc, cfg_tok, kw, text)
     else:
         kind, s = unit['kind'], unit['s']
         table = PW if kind == 'plss' else TW
@@ -497,6 +538,8 @@ def replay(case):
     elif case['k'] == 'matrix':
         matrix_case(acc, case['kind'], case['setting'], case['value'], case['text'])
         return [v for v in acc.viol if v['case']['channel'] == case['channel']]
+    elif case['k'] == 'colonfamily':
+        colon_family_case(acc, case['cfg'], case['kw'], case['text'])
     elif case['k'] == 'family':
         family_conflict_case(acc, case['kind'], case['cfg'][0], case['cfg'][1], case['kw'][0], case['kw'][1], case['text'])
     else:
@@ -513,7 +556,7 @@ def guards(info):
     for s in TW:
         if not g.get(f"sensitive_tract_{s}"):
             out.append(f"no sensitive witness for Tract setting {s}")
-    for name in ('config_roundtrip_ok', 'unknown_rejected', 'conflict_resolved', 'family_conflict_resolved'):
+    for name in ('config_roundtrip_ok', 'unknown_rejected', 'conflict_resolved', 'family_conflict_resolved', 'colon_family_ok'):
         if not g.get(name):
             out.append(f"never observed: {name}")
     return out
